@@ -403,6 +403,16 @@ impl<T: Qcow2IoOps> Qcow2Dev<T> {
         SplitGuestOffset(virt_addr).l2_slice_key(info)
     }
 
+    #[cfg(feature = "verif-hooks")]
+    pub fn verif_rb_slice_key_of_rt_off(&self, off: u64) -> usize {
+        self.rb_slice_key_of_rt_off(off)
+    }
+
+    #[cfg(feature = "verif-hooks")]
+    pub fn verif_l2_slice_key_of_l1_off(&self, off: u64) -> usize {
+        self.l2_slice_key_of_l1_off(off)
+    }
+
     //// flush refcount table and block dirty data to disk
     pub(crate) async fn flush_refcount(&self) -> Qcow2Result<()> {
         loop {
